@@ -282,6 +282,11 @@ func (t *Tree) recover(errp *error) {
 			panic(e)
 		}
 		if t != nil {
+			if t.lex != nil {
+				// Let the lexer goroutine run to completion instead of
+				// leaving it blocked on its next send.
+				t.lex.drain()
+			}
 			t.stopParse()
 		}
 		*errp = e.(error)
